@@ -16,12 +16,30 @@ fn kind_name(k: u8) -> &'static str {
         1 => "seed",
         2 => "value",
         3 => "mask",
+        4 => "value (decimal text)",
+        5 => "value (hexadecimal text)",
+        6 => "blinding / seed (hexadecimal text)",
+        7 => "value (big-endian)",
         _ => "control",
     }
 }
 
 fn register_secrets(inst: &rrun::Inst) {
     alloc::clear();
+    // renderings of the secrets as text (a diagnostic string built from them is a copy like any other): first, so
+    // that large aggregates do not crowd them out of the pattern table
+    for v in inst.values.iter().take(4) {
+        if *v >= 1u64 << 40 {
+            alloc::register(format!("{}", v).as_bytes(), 4);
+            alloc::register(format!("{:x}", v).as_bytes(), 5);
+            alloc::register(format!("{:X}", v).as_bytes(), 5);
+            alloc::register(&v.to_be_bytes(), 7);
+        }
+    }
+    for s in inst.blindings.iter().flatten().take(2).chain(inst.seed.iter()) {
+        let h: String = s.as_bytes().iter().map(|b| format!("{:02x}", b)).collect();
+        alloc::register(h[..32].as_bytes(), 6);
+    }
     for b in &inst.blindings {
         for s in b {
             alloc::register(s.as_bytes(), 0);
@@ -76,9 +94,11 @@ pub fn c20(opts: &Opts, out: &mut Out) {
         let mut inst = rrun::random_inst(n, m, m, t, 4, seeded, &mut rng);
         // high-entropy values so that the 8-byte pattern is meaningful
         if n == 64 {
-            for (v, p) in inst.values.iter_mut().zip(inst.promises.iter_mut()) {
+            for (j, (v, p)) in inst.values.iter_mut().zip(inst.promises.iter_mut()).enumerate() {
                 *v = rng.next_u64() | (1u64 << 63);
-                *p = None;
+                // the last opening under a promise just below the value (never equal: a promise is public data, and
+                // the verifier's copies of it are not the library's to wipe), the others without
+                *p = if j + 1 == m { Some(*v - 5 - t as u64) } else { None };
             }
         }
         let key = inst.describe();
@@ -95,6 +115,16 @@ pub fn c20(opts: &Opts, out: &mut Out) {
         let (hits, freed) = alloc::disarm();
         report(out, "prove", &format!("{} expected-seed-derivations={}", key, if seeded { t * (3 + 2 * kappa) } else { 0 }), &hits, freed, &mut total_freed);
         out.req(format!("lifecycle fixed=1 seeded={} m={} t={} rounds={} op=prove", seeded as u8, m, t, kappa), format!("unwiped={}", hits.len()));
+        // the other entry point
+        {
+            let mut tr2 = inst.transcript();
+            register_secrets(&inst);
+            alloc::arm();
+            let p2 = rrun::Proof::prove(&mut tr2, &stmt, &wit);
+            let (hits, freed) = alloc::disarm();
+            report(out, "prove(entry point `prove`)", &key, &hits, freed, &mut total_freed);
+            drop(p2);
+        }
         let Ok(proof) = proof else { continue };
         // --- verify with recovery (both recovering modes) and verify-only
         for action in rrun::ACTIONS {
@@ -218,8 +248,9 @@ pub fn c20(opts: &Opts, out: &mut Out) {
     {
         use curve25519_dalek::traits::Identity;
         use tari_bulletproofs_plus::{range_parameters::RangeParameters, range_statement::RangeStatement, traits::Compressable};
-        let (n, m, t) = (8usize, 2usize, 2usize);
-        for case in ["wrong-opening", "value-out-of-range", "value-below-promise", "identity-blinding-generator", "identity-value-generator"] {
+        let (m, t) = (2usize, 2usize);
+        for case in ["wrong-opening", "value-out-of-range", "value-below-promise", "value-below-promise-64", "wrong-opening-64", "identity-blinding-generator", "identity-value-generator"] {
+            let n = if case.ends_with("-64") { 64usize } else { 8 };
             let mut pg = rrun::pedersen(rrun::deg(t));
             match case {
                 "identity-blinding-generator" => {
@@ -233,21 +264,29 @@ pub fn c20(opts: &Opts, out: &mut Out) {
                 _ => {},
             }
             let Ok(pr) = RangeParameters::init(n, m, pg) else { continue };
-            let vals: Vec<u64> = vec![200, 17];
+            let vals: Vec<u64> = if n == 64 { vec![(1u64 << 50) + 0x1234_5678_9abc, (1u64 << 61) + 0xfed_cba9_8765] } else { vec![200, 17] };
             let rs: Vec<Vec<Scalar>> = (0..m).map(|_| (0..t).map(|_| Scalar::random(&mut rng)).collect()).collect();
             let cs: Vec<RistrettoPoint> = vals.iter().zip(rs.iter()).map(|(v, r)| pr.pc_gens().commit(&Scalar::from(*v), r).unwrap()).collect();
-            let promises = if case == "value-below-promise" { vec![None, Some(18u64)] } else { vec![None; m] };
+            let promises = if case.starts_with("value-below-promise") { vec![Some(vals[0] - 3), Some(vals[1] + 1)] } else if n == 64 { vec![Some(vals[0] - 9), None] } else { vec![None; m] };
             let Ok(stmt) = RangeStatement::init(pr, cs, promises, None) else { continue };
             let mut wv = vals.clone();
             let mut wr = rs.clone();
             match case {
-                "wrong-opening" => wr[1][1] += Scalar::ONE,
+                "wrong-opening" | "wrong-opening-64" => wr[1][1] += Scalar::ONE,
                 "value-out-of-range" => wv[0] = 256 + 200,
                 _ => {},
             }
             let Ok(wit) = RangeWitness::init(wv.iter().zip(wr.iter()).map(|(v, r)| CommitmentOpening::new(*v, r.clone())).collect()) else { continue };
             let key = format!("failing prover call n={} m={} t={} case={}", n, m, t, case);
             alloc::clear();
+            for v in &wv {
+                if *v >= 1u64 << 40 {
+                    alloc::register(format!("{}", v).as_bytes(), 4);
+                    alloc::register(format!("{:x}", v).as_bytes(), 5);
+                    alloc::register(&v.to_le_bytes(), 2);
+                    alloc::register(&v.to_be_bytes(), 7);
+                }
+            }
             for r in &wr {
                 for s in r {
                     alloc::register(s.as_bytes(), 0);
@@ -257,8 +296,10 @@ pub fn c20(opts: &Opts, out: &mut Out) {
             let mut prng = chacha(7, 7);
             alloc::arm();
             let proof = rrun::Proof::prove_with_rng(&mut tr, &stmt, &wit, &mut prng);
+            let failed = proof.is_err();
+            drop(proof); // the error value is released under the scanner too: its text must not carry the witness
             let (hits, freed) = alloc::disarm();
-            out.oracle("C20:failing-call-fails", proof.is_err(), &key, "the prover call of this scenario was expected to be refused");
+            out.oracle("C20:failing-call-fails", failed, &key, "the prover call of this scenario was expected to be refused");
             report(out, "prove(failing)", &key, &hits, freed, &mut total_freed);
             classes.insert((n, m, t + 10, false));
         }
